@@ -39,6 +39,10 @@ def stateAfter (f : Nat → α → StateM σ β) : Nat → σ → List α → σ
 def logged (f : Nat → α → StateM σ β) : Nat → α → StateM (σ × List (Nat × α)) β :=
   fun i x s => (((f i x).run s.1).1, (((f i x).run s.1).2, s.2 ++ [(i, x)]))
 
+/-- the same for a closure that is not handed a position: records the elements it is called with -/
+def loggedPlain (f : α → StateM σ β) : α → StateM (σ × List α) β :=
+  fun x s => (((f x).run s.1).1, (((f x).run s.1).2, s.2 ++ [x]))
+
 /-- wrap an arbitrary stateful folding closure with a recorder of the elements it is called with -/
 def loggedAcc (f : γ → α → StateM σ γ) : γ → α → StateM (σ × List α) γ :=
   fun acc x s => (((f acc x).run s.1).1, (((f acc x).run s.1).2, s.2 ++ [x]))
@@ -215,6 +219,18 @@ theorem traverseIdx_logged (f : Nat → α → StateM σ β) (i : Nat) (xs : Lis
     rw [hl]; simp only
     rw [ih]
     simp [enumFrom, imapFrom]
+
+theorem traverseIdx_loggedPlain (f : α → StateM σ β) (i : Nat) (xs : List α) (s : σ) (l : List α) :
+    (traverseIdx (fun _ => loggedPlain f) i xs).run (s, l) =
+      (((traverseIdx (fun _ => f) i xs).run s).1, (((traverseIdx (fun _ => f) i xs).run s).2, l ++ xs)) := by
+  induction xs generalizing i s l with
+  | nil => simp; rfl
+  | cons x xs ih =>
+    rw [traverseIdx_cons_run, traverseIdx_cons_run]
+    have hl : (loggedPlain f x).run (s, l) = (((f x).run s).1, (((f x).run s).2, l ++ [x])) := rfl
+    rw [hl]; simp only
+    rw [ih]
+    simp
 
 /-- the other element pipelines make the same calls in the same order: they are `traverseIdx` followed by a selection -/
 theorem filterIdxM_eq_traverse (f : Nat → α → StateM σ Bool) (i : Nat) (xs : List α) (s : σ) :
@@ -405,5 +421,13 @@ theorem fold_unfold (a : Arr α) (init : γ) (f : γ → α → γ) : fold a ini
   show Res.ok (Id.run (foldIdxM (m := Id) (fun _ acc x => pure (f acc x)) 0 init a.elems)) = _
   rw [this]
 
+
+/-- the plain variants are, by definition, the enumerating variants with a closure that ignores the position -/
+theorem plain_eq_enumerating {m : Type → Type} [Monad m] (a : Arr α) :
+    (∀ f : α → m β, mapM a f = mapEM a (fun _ => f)) ∧
+    (∀ f : α → m Bool, filterM a f = filterEM a (fun _ => f)) ∧
+    (∀ f : α → m (Option β), filterMapM a f = filterMapEM a (fun _ => f)) ∧
+    (∀ f : α → m Unit, forEachM a f = forEachEM a (fun _ => f)) :=
+  ⟨fun _ => rfl, fun _ => rfl, fun _ => rfl, fun _ => rfl⟩
 
 end ArrModel.Iter
